@@ -24,14 +24,21 @@ from ..drivers import scanmodel as sm, watchdog
 INVS = ['H_YamlErrorOnly', 'H_Terminates', 'H_TokenMarks', 'H_ErrorMarks', 'H_TokenGrammar', 'H_Monotone', 'L_Sane']
 # rows of FocusTable in spec/Scanner.tla (prefix, alphabet and the two bounds of each focus are defined there)
 FOCUSES = ['struct', 'struct2', 'block', 'indic', 'breaks', 'docs', 'dquote', 'escape', 'hex', 'squote', 'yamldir', 'dir', 'tagdir', 'tag',
-           'verbatim', 'literal', 'folded', 'seqlit', 'mapblock', 'anchors', 'longkey', 'flowkeys', 'cont', 'numbers', 'indentless']
-DESIGN = ['dstruct', 'dindic']            # design check (Fine = TRUE): one step per method, every action must fire
+           'verbatim', 'literal', 'folded', 'seqlit', 'mapblock', 'anchors', 'longkey', 'flowkeys', 'cont', 'numbers', 'indentless',
+           'reflow1', 'reflow2', 'reflow3']
+# long runs (a bulk of > 1200 characters of one class, or > 1200 repetitions of a token-producing unit) at every position of
+# short strings in every context; a state of these rows without a run repeats a state of the rows above and is not replayed
+RUN_FOCUSES = ['rtop', 'rflow', 'rvalue', 'rcomment', 'rdq', 'rsq', 'rlit', 'rlitbody', 'rfold', 'ryaml', 'ryaml2', 'rdir', 'rprops',
+               'rescape', 'runits', 'runitsf', 'runitsb', 'runitsq', 'runitsd']
+DESIGN = ['dstruct', 'dindic', 'drun']    # design check (Fine = TRUE): one step per method, every action must fire
 FETCHERS = ['StreamEnd', 'Directive', 'DocumentStart', 'DocumentEnd', 'FlowSequenceStart', 'FlowMappingStart',
             'FlowSequenceEnd', 'FlowMappingEnd', 'FlowEntry', 'BlockEntry', 'Key', 'Value', 'Alias', 'Anchor', 'Tag',
             'Literal', 'Folded', 'Single', 'Double', 'Plain', 'NoToken']
 # set an entry to True when the corresponding fix_proposals/<id>.diff has been applied to /repo (the model then describes the
 # repaired code; with a stale flag the check still passes and prints a spec-drift note)
 MODEL_FIXES = {'FixD1': True, 'FixD10': True}     # /repo commits 58d44d5, a14b348
+WORKERS = int(os.environ.get('VERIF_C03_WORKERS', '16'))      # development aids (shared machine): TLC workers, replay processes
+PROCS = int(os.environ.get('VERIF_C03_PROCS', '16'))
 LIMIT = 60.0           # watchdog: seconds without a result for one input (inputs take milliseconds); confirmed by a second run
 
 
@@ -78,7 +85,29 @@ def site_of(exc, pkgdir):
     return site or 'outside-package'
 
 
+def recursion_site(exc, pkgdir):
+    """the function of the yaml package that occurs most often in the traceback of a RecursionError (the innermost frame is
+    wherever the stack happened to end)"""
+    cnt = {}
+    for fr in traceback.extract_tb(exc.__traceback__)[-400:]:
+        fn = fr.filename
+        if os.path.dirname(os.path.abspath(fn)) == pkgdir or fn.endswith('_yaml.pyx'):
+            k = '%s:%s' % (os.path.basename(fn), fr.name)
+            cnt[k] = cnt.get(k, 0) + 1
+    return max(sorted(cnt), key=lambda k: cnt[k]) if cnt else 'outside-package'
+
+
 ENTRIES = ('scan', 'parse', 'compose_all')
+
+
+def nesting_bound(data):
+    """an upper bound of the nesting depth of the node graph of an input: every collection that contains another node is
+    opened by one of the indicators [ { - ? : (a projection of the input alone; str, bytes or a byte stream's content)"""
+    if isinstance(data, io.BytesIO):
+        data = data.getvalue()
+    if isinstance(data, bytes):
+        return sum(data.count(c) for c in (b'[', b'{', b'-', b'?', b':'))
+    return sum(data.count(c) for c in '[{-?:')
 
 
 class ShortReads:
@@ -156,7 +185,8 @@ def observe(yaml, pkgdir, text, raw, entries=ENTRIES, extra_forms=False, rnd=Non
         for backend, L in (('py', yaml.Loader), ('c', yaml.CLoader)):
             for entry in entries:
                 rec = {'outcome': 'ok', 'lenc': lenc, 'lenb': lenb_c if backend == 'c' else lenb, 'marks': [], 'rpos': -1, 'runit': 'c',
-                       'exact': backend == 'py' and dec is not None, 'breaks': breaks, 'boms': boms}
+                       'exact': backend == 'py' and dec is not None, 'breaks': breaks, 'boms': boms,
+                       'entry': '-', 'backend': '-', 'nest': 0, 'reclimit': 0}       # filled in for a RecursionError only
                 meta = {'backend': backend, 'entry': entry, 'form': form, 'exc': None, 'site': None}
                 try:
                     for _ in getattr(yaml, entry)(mk(), Loader=L):
@@ -170,8 +200,13 @@ def observe(yaml, pkgdir, text, raw, entries=ENTRIES, extra_forms=False, rnd=Non
                     for m in (getattr(e, 'context_mark', None), getattr(e, 'problem_mark', None)):
                         if m is not None:
                             rec['marks'].append({'i': m.index, 'l': m.line, 'c': m.column})
-                except RecursionError:
-                    continue                                   # out of scope as stated by the property
+                except RecursionError as e:
+                    # the statement excludes nesting beyond the recursion limit for the pure-Python composer only: H decides
+                    # from the entry point, the back-end and an upper bound of the nesting depth of this input
+                    rec.update(outcome='recursion', entry=entry, backend=backend, reclimit=sys.getrecursionlimit(),
+                               nest=nesting_bound(dec if dec is not None else sample))
+                    meta['exc'] = 'RecursionError'
+                    meta['site'] = recursion_site(e, pkgdir)
                 except Exception as e:                         # noqa
                     rec['outcome'] = 'exception'
                     meta['exc'] = type(e).__name__
@@ -211,7 +246,8 @@ def _init():
 
 # ------------------------------------------------------------------ (b) replay of enumerated states
 def new_res():
-    return {'states': 0, 'ends': 0, 'focus': {}, 'outcomes': {}, 'paths': {}, 'errkinds': {}, 'drift': {}, 'ndrift': 0, 'runs': 0, 'lcompared': 0}
+    return {'states': 0, 'ends': 0, 'focus': {}, 'outcomes': {}, 'paths': {}, 'errkinds': {}, 'drift': {}, 'ndrift': 0, 'runs': 0, 'lcompared': 0,
+            'runs_long': 0}
 
 
 def replay_state(yaml, pkgdir, st, nrep, tier, res, bag):
@@ -225,10 +261,17 @@ def replay_state(yaml, pkgdir, st, nrep, tier, res, bag):
         res['errkinds'][k] = res['errkinds'].get(k, 0) + 1
     syms = st['inp']
     rnd = random.Random(zlib.crc32(('%d|%s' % (SEED, ' '.join(syms))).encode()))
+    run = st['focus'] in RUN_FOCUSES
+    if run:
+        res['runs_long'] += 1
+        nrep = 1
     for k in range(nrep):
         text, parts = sm.concretise(syms, rnd)
-        d = sm.compare(st, syms, parts, sm.observe_scan(yaml, text, yaml.Loader))
-        res['lcompared'] += 1
+        if st['res'] != 'unmodelled':
+            d = sm.compare(st, syms, parts, sm.observe_scan(yaml, text, yaml.Loader))
+            res['lcompared'] += 1
+        else:
+            d = None
         if d:
             res['ndrift'] += 1
             key = re.sub(r'[\[(\'"].*', '', d)[:50]
@@ -236,7 +279,12 @@ def replay_state(yaml, pkgdir, st, nrep, tier, res, bag):
         # first representative: str / bytes / text stream x scan, parse, compose_all; further ones: the other delivery forms
         # quick: 16 runs per input: str x three entry points and a byte stream with short reads for the first representative;
         # a text stream with short reads and UTF-16 for the second.  (bytes and whole-read streams: corpus phase, thorough tier)
-        if k == 0:
+        if run:
+            # a long run: str x the three entry points, and a byte stream with short reads (scan), both back-ends
+            obs = observe(yaml, pkgdir, text, None, only_forms=('str',))
+            obs += observe(yaml, pkgdir, text, None, rnd=rnd, kmax=rnd.choice([3, 64, 1000]), entries=('scan',) if tier == 'quick' else ENTRIES,
+                           only_forms=('short-bytes',) if tier == 'quick' else ('short-bytes', 'short-str'))
+        elif k == 0:
             obs = observe(yaml, pkgdir, text, None, only_forms=('str',))
             obs += observe(yaml, pkgdir, text, None, rnd=rnd, kmax=3, entries=('scan', 'compose_all'),
                            only_forms=('short-bytes',) if tier == 'quick' else ('short-bytes', 'bytes', 'stream-str'))
@@ -250,6 +298,10 @@ def replay_state(yaml, pkgdir, st, nrep, tier, res, bag):
             bag.add(rec, meta, {'symbols': syms, 'text': short, 'model': st['res'] + '/' + st['err']['kind']})
 
 
+def wanted(st):
+    return st['focus'] not in RUN_FOCUSES or sm.has_run(st['inp'])
+
+
 def replay_states(ctx, item):
     """item: (dumpfile, from, to, nrep, tier) - a chunk of the TLC dump - or ('one', state, nrep, tier)"""
     yaml, pkgdir = ctx
@@ -261,7 +313,7 @@ def replay_states(ctx, item):
         path, a, b, nrep, tier = item
         for st in mbt.chunk_states(path, a, b):
             res['states'] += 1
-            if st['pc'] == 'end':
+            if st['pc'] == 'end' and wanted(st):
                 replay_state(yaml, pkgdir, st, nrep, tier, res, bag)
     res['bag'] = bag.d
     return res
@@ -281,6 +333,8 @@ def mutation_symbols():
     """every abstract symbol through every representative, plus multi-character lexemes"""
     out = []
     for s, reps in sm.REPS.items():
+        if s in sm.BULK_BASE or s in sm.UNITS:
+            continue
         if s in ('L', 'DBIG'):
             out.append(reps[0])
             continue
@@ -336,6 +390,24 @@ def corpus_items(tier, rnd):
                 else:
                     t2 = text[:k] + text[k + 1 + rnd.randrange(3):]
                 items.append(('%s~%s%d' % (name, 'ird'[op - 2], k), t2, None))
+    # a long run (beyond the recursion limit) of one character class or of one token-producing unit inserted at a seeded position
+    # of a data file: the contexts the files offer x the classes of Scanner.tla's run symbols (every 3rd file in quick)
+    runs = [' ', '\t', '\n', '\r', '\r\n', '\x85', '\u2028', '\u2029', '#', '-', '.', ':', '?', ',', '0', '7', 'k', '\xe9', '\ufeff', '- ', ': ', '? ',
+            ', ', 'a, ', '---\n', '...\n', '&a ', '!t ', '*a ', '"', "'", "''", '\\', '\\n', '%', '|', '>', '|\n', '-\n', '# c\n', '%FOO b\n', '!', '&', ']', '}']
+    for fi, f in enumerate(files):
+        if tier == 'quick' and fi % 3 != SEED % 3:
+            continue
+        try:
+            raw = open(f, 'rb').read()
+        except OSError:
+            continue
+        text = decode_like_reader(raw)
+        if text is None or len(raw) > 20000:
+            continue
+        for j in range(1 if tier == 'quick' else 6):
+            u = rnd.choice(runs)
+            k = rnd.randrange(len(text) + 1)
+            items.append(('longrun-%s~%r@%d' % (os.path.basename(f), u, k), text[:k] + u * 1200 + text[k:], None))
     # every alignment of a line break relative to the reader's block: long streams in every break style
     bodies = ['a: b', '- [x, y]', 'k: "v w"', "? 'q'"]
     for bi, body in enumerate(bodies if tier != 'quick' else bodies[:2]):
@@ -376,9 +448,17 @@ def corpus_items(tier, rnd):
             for suf in ('', 'z', '-rc', '_', ':', '.', 'g', ' #c'):
                 ctx = rnd.choice(['%s', '- %s', 'k: %s', '[%s]', '%s: v', '{%s: 1}'])
                 items.append(('num-%s%d%s' % (pre, ln, suf), ctx % (pre + run + suf), None))
+        # beyond CPython's 4300-digit limit of int(), in the variants a digit counter can tell apart: significant digits only,
+        # zeros only, leading zeros and then significant digits
+        sig = [d for d in ds if d not in '0_:'] or list(ds)
+        for vname, run in (('sig', ''.join(rnd.choice(sig) for _ in range(4400))), ('zeros', ds[0] * 4400),
+                           ('lead', ds[0] * 4395 + ''.join(rnd.choice(sig) for _ in range(5)))):
+            for suf in ('', 'z') if tier == 'quick' else ('', 'z', '_', ':', '.', ' #c'):
+                ctx = rnd.choice(['%s', '- %s', 'k: %s', '[%s]', '%s: v', '{%s: 1}'])
+                items.append(('num-%s4400%s%s' % (pre, vname, suf), ctx % (pre + run + suf), None))
     # seeded random byte strings and random strings over the concrete alphabet
     nrand = 900 if tier == 'quick' else 40000
-    pool = [r for s, rs in sm.REPS.items() if s not in ('L', 'DBIG') for r in rs]
+    pool = [r for s, rs in sm.REPS.items() if s not in ('L', 'DBIG') and s not in sm.BULK_BASE and s not in sm.UNITS for r in rs]
     weighted = [b'-', b':', b' ', b'\n', b'[', b']', b'{', b'}', b',', b'"', b"'", b'\\', b'!', b'&', b'*', b'|', b'>', b'%', b'#', b'?',
                 b'a', b'1', b'\r', b'\t', b'\xc3\xa9', b'\xff', b'\x00', b'\xef\xbb\xbf', b'\xc2\x85', b'\xe2\x80\xa8', b'x', b'U', b'u',
                 b'F', b'0', b'.', b'<', b'@', b'`']
@@ -406,7 +486,9 @@ def corpus_work(ctx, chunk):
     runs = 0
     for name, text, raw in chunk:
         rnd = random.Random(zlib.crc32(('%d|%s' % (SEED, name)).encode()))
-        if name.startswith(('long-', 'lex-')):
+        if name.startswith('longrun-'):
+            obs = observe(yaml, pkgdir, text, raw, only_forms=('str', 'short-bytes'), rnd=rnd, kmax=rnd.choice([7, 64, 1000]))
+        elif name.startswith(('long-', 'lex-')):
             # whole-block reads (the reader's own 4096 blocks) and short reads of 1000..3000 units
             obs = observe(yaml, pkgdir, text, raw, only_forms=('stream-str', 'stream-bytes', 'short-str', 'short-bytes'),
                           entries=('scan', 'compose_all'), rnd=rnd, kmax=3000)
@@ -429,7 +511,7 @@ def wd(o):
 def supervised(v, fn, items, expand, describe):
     """run fn over chunk-items under the watchdog; a chunk without result is expanded into single inputs to find the input.
     After two confirmed hangs / deaths the rest is skipped (the verdict is already decided).  -> (results, skipped)"""
-    out = watchdog.run(fn, items, procs=16, limit=LIMIT, init=_init, abort_after=2)
+    out = watchdog.run(fn, items, procs=PROCS, limit=LIMIT, init=_init, abort_after=2)
     good, skipped, expanded = [], 0, False
     for it, o in zip(items, out):
         k = wd(o)
@@ -443,7 +525,7 @@ def supervised(v, fn, items, expand, describe):
             expanded = True
             singles = expand(it)
             found = False
-            for s1, o1 in zip(singles, watchdog.run(fn, singles, procs=8, limit=LIMIT, init=_init, chunk=8, abort_after=2)):
+            for s1, o1 in zip(singles, watchdog.run(fn, singles, procs=min(8, PROCS), limit=LIMIT, init=_init, chunk=8, abort_after=2)):
                 k1 = wd(o1)
                 if k1 is None:
                     good.append(o1)
@@ -461,7 +543,7 @@ def run_tlc(tag, focuses, tier, fine, with_crash_inv):
     consts = {'Focuses': tla_set(focuses), 'Thorough': 'FALSE' if tier == 'quick' else 'TRUE', 'Fine': 'TRUE' if fine else 'FALSE'}
     consts.update({k: 'TRUE' if b else 'FALSE' for k, b in MODEL_FIXES.items()})
     r = tlc.run('Scanner', cfg='MC_Scanner.cfg' if with_crash_inv else 'MC_Scanner_enum.cfg', tag='C03_' + tag,
-                dump=True, coverage=False, timeout=3000, constants=consts)
+                dump=True, coverage=False, timeout=3000, constants=consts, workers=WORKERS)
     bad = [x for x in r.violated if x != 'H_YamlErrorOnly']
     if bad or (not r.ok and not r.violated):
         sys.stdout.write(r.out[-4000:])
@@ -482,6 +564,7 @@ def main(tier, replay=None):
     import time
     t0 = time.time()
     v = Verdict('C03', tier)
+    sm.configure(tier != 'quick')                     # widths of the long runs (Thorough of Scanner.tla); workers are forked later
     states = trans = 0
     cov = {}
     # (a) design check, one step per method
@@ -493,7 +576,7 @@ def main(tier, replay=None):
     states += r.distinct
     trans += r.generated
     pcs = {}
-    for p_, f_ in mbt.pmap(design_work, r.dump):
+    for p_, f_ in mbt.pmap(design_work, r.dump, procs=PROCS):
         for k_, n_ in p_.items():
             pcs[k_] = pcs.get(k_, 0) + n_
         for k_, n_ in f_.items():
@@ -511,22 +594,32 @@ def main(tier, replay=None):
     cov['actions_fired'] = dict(steps, **{'Fetch' + k: n for k, n in fired.items()})
     # (b) enumeration + replay
     bag = Bag()
-    tot = {'ends': 0, 'runs': 0, 'lcompared': 0, 'ndrift': 0}
+    tot = {'ends': 0, 'runs': 0, 'lcompared': 0, 'ndrift': 0, 'runs_long': 0}
     outcomes, errkinds, drift = {}, {}, {}
     nrep = 2
     only = os.environ.get('VERIF_C03_ONLY')          # development aid: comma-separated focus names
-    focuses = [f for f in FOCUSES if not only or f in only.split(',')]
-    r = run_tlc('enum', focuses, tier, False, False)
-    states += r.distinct
-    trans += r.generated
+    # two enumeration runs side by side: the short strings, and the strings with a long run (their replay costs 10-1000 times
+    # more per input, so they go first and in small chunks: the watchdog limit is per chunk)
+    groups = [('runs', [f for f in RUN_FOCUSES if not only or f in only.split(',')]),
+              ('enum', [f for f in FOCUSES if not only or f in only.split(',')])]
+    groups = [g for g in groups if g[1]]
+    from concurrent.futures import ThreadPoolExecutor
+    with ThreadPoolExecutor(max_workers=2) as ex:
+        rs = list(ex.map(lambda g: run_tlc(g[0], g[1], tier, False, False), groups))
+    items = []
+    for (gname, _f), r in zip(groups, rs):
+        states += r.distinct
+        trans += r.generated
+        per = max(64, r.distinct // 12) if gname == 'runs' else max(128, r.distinct // 400)      # number of chunks
+        items += [(r.dump, a, b, nrep, tier) for a, b in mbt.split_dump(r.dump, per)]
     t0 = _lap('enum_tlc', t0)
-    items = [(r.dump, a, b, nrep, tier) for a, b in mbt.split_dump(r.dump, max(128, r.distinct // 400))]
     def expand_chunk(it):
-        return [('one', st, nrep, tier) for st in mbt.chunk_states(*it[:3]) if st['pc'] == 'end']
+        return [('one', st, nrep, tier) for st in mbt.chunk_states(*it[:3]) if st['pc'] == 'end' and wanted(st)]
 
     todo_merge, skipped = supervised(v, replay_states, items, expand_chunk, lambda s1: (' '.join(s1[1]['inp']), {'symbols': s1[1]['inp']}))
     n = 0
-    os.remove(r.dump)
+    for r in rs:
+        os.remove(r.dump)
     perfocus = {}
     for o in todo_merge:
         n += o['states']
@@ -538,10 +631,13 @@ def main(tier, replay=None):
         for k, ex in o['drift'].items():
             drift.setdefault(k, ex)
         bag.merge(o['bag'])
-    if n != r.distinct and not v.violations:
-        raise SystemExit('machinery failure: dump/state count mismatch (%d != %d)' % (n, r.distinct))
+    if n != sum(r.distinct for r in rs) and not v.violations:
+        raise SystemExit('machinery failure: dump/state count mismatch (%d != %d)' % (n, sum(r.distinct for r in rs)))
     cov['skipped_after_hang'] = skipped
-    cov['enumeration'] = {'focuses': perfocus, 'states': r.distinct, 'tlc_s': round(r.wall, 1), 'bounds': 'n (quick) / m (thorough) of FocusTable'}
+    cov['enumeration'] = {'focuses': perfocus, 'states': sum(r.distinct for r in rs), 'tlc_s': [round(r.wall, 1) for r in rs],
+                          'bounds': 'n (quick) / m (thorough) of FocusTable',
+                          'long_runs': {'inputs': tot['runs_long'], 'bulk_width': sm.BULK_W, 'digit_bulk_width': sm.DIGIT_BULK_W,
+                                        'unit_repetitions': sm.UNIT_N, 'unmodelled (unit runs: generated, judged by H only)': outcomes.get('unmodelled', 0)}}
     if tot['ndrift']:
         v.note('spec-drift C03/scanner: %d of %d concretised inputs where yaml.scan differs from Scanner.tla, e.g. %s'
                % (tot['ndrift'], tot['lcompared'], json.dumps(list(drift.items())[:3], default=str)[:900]))
@@ -596,7 +692,7 @@ def main(tier, replay=None):
                  samples=[{'input': bag.d[k][2]['input'], 'backend': bag.d[k][2]['backend'], 'entry': bag.d[k][2]['entry'],
                            'outcome': bag.d[k][1]['outcome'], 'exc': bag.d[k][2]['exc']} for k in keys[:4]])
     v.assumptions = ['inputs are str, bytes or streams returning one of the two consistently (DESIGN 5.0)',
-                     'nesting depth far below the recursion limit (RecursionError is out of scope as stated)',
+                     'a RecursionError is accepted only from compose_all of the pure-Python back-end on an input with >= reclimit / 4 collection indicators [ { - ? : (Trace_Outcome.tla, FramesPerLevel)',
                      'class partition of the abstract alphabet: tested by several representatives per class',
                      'LibYAML marks: range only; pure-Python marks: index in range and line/column = Pos(input, index)',
                      'watchdog limit %ds without a result, confirmed by a second run, counts as a hang' % int(LIMIT)]
